@@ -65,7 +65,7 @@ func H_C18_yaml() {
 	if vxrt.Param("known_K1", 1) == 1 {
 		vxrt.Assume(vxrt.Not(hasLine(doc, "/-/-/-/")))
 	}
-	got, _, err := getPrevSnapshot("[TestA - 1]", dir+"/f.snap")
+	got, _, err := refPrev("[TestA - 1]", dir+"/f.snap")
 	vxrt.Assert(err == nil && vxrt.Eq(unescapeEndChars(got), doc), "C18:document-reads-back-verbatim")
 	stamp := vxrt.FSStamp()
 	t2 := newT("TestA")
